@@ -140,7 +140,7 @@ def depguard(F, rep, gc):
             pl = op_place(gc.term(g)["on"])
             if pl is None:
                 continue
-            locs, _, _ = backward_slice(gc, [pl["l"]])
+            locs, gcalls, _ = backward_slice(gc, [pl["l"]])
             for b in gc.blocks:
                 for s in b["st"]:
                     if s["s"] == "assign" and s["d"]["l"] in locs:
@@ -151,6 +151,13 @@ def depguard(F, rep, gc):
                         for p2 in pls:
                             if p2:
                                 fields |= {x[2] for x in place_fields(p2) if x[0].endswith("ProjectGenerator")}
+            # guards computed by local closures / helper methods: what they read counts too
+            for _, ct in gcalls:
+                cn = callee_name(ct) or ""
+                if cn in F.fns and (cn.startswith(gc.path + "::{") or "ProjectGenerator" in cn):
+                    for k in F.field_reads(body_and_closures(F, cn)):
+                        if k[0].endswith("ProjectGenerator"):
+                            fields.add(k[2])
         allowed = FIXED_DEPS[crate]
         ok = bool(fields) and fields <= allowed
         inst = "%s#%d" % (crate, seen[crate])
